@@ -29,8 +29,10 @@
 //     sender accounts, one goroutine flipping factory.GasScheduleChange(A|B), one goroutine
 //     confirming epochs ≥ activation. Every charge must be the scenario's charge under A or under
 //     B; the flipper performs rounds × flips-per-round flips.
-//  4. race detector        a detected race ends the process with exit code 66 (with
-//     halt_on_error=1 at the first report, otherwise at exit); the report is on stderr.
+//  4. race detector        sections 1–3 run under -race; the first detected race ends the process
+//     with exit code 66 and the report on stderr. The binary enforces this itself: started
+//     without halt_on_error in GORACE it re-executes itself with
+//     GORACE="halt_on_error=1 exitcode=66 atexit_sleep_ms=0" (see ensureHaltOnRace).
 //
 // Exit status: 0 no finding, 1 findings, 2 usage / internal error, 66 data race.
 //
@@ -48,6 +50,7 @@ import (
 	"os"
 	"runtime"
 	"strings"
+	"syscall"
 	"time"
 )
 
@@ -76,7 +79,7 @@ type output struct {
 	// timeout (the own search decides the rest alone).
 	HistoriesPorcupine int `json:"histories_decided_by_porcupine_too"`
 	IllegalHistories   int `json:"illegal_histories"`
-	HammerOps        int   `json:"unstamped_ops"`
+	HammerOps          int `json:"unstamped_ops"`
 
 	ChargesChecked     int                       `json:"charges_checked"`
 	ChargesBySchedule  map[string]int            `json:"charges_by_schedule"`
@@ -116,7 +119,31 @@ func (r *run) addSample(s map[string]interface{}) { r.out.Samples = append(r.out
 
 func newBig(v int64) *big.Int { return big.NewInt(v) }
 
+// ensureHaltOnRace makes "exit code 66 at the first data race" independent of the caller's
+// environment: a race-enabled binary started without halt_on_error in GORACE re-executes itself
+// with GORACE="halt_on_error=1 exitcode=66 atexit_sleep_ms=0" (the race runtime reads GORACE only
+// at start-up, and without halt_on_error it turns a race into exit code 66 only when the program
+// exits with status 0, so findings would mask it).
+func ensureHaltOnRace() {
+	if !raceEnabled || strings.Contains(os.Getenv("GORACE"), "halt_on_error") {
+		return
+	}
+	exe, err := os.Executable()
+	if err != nil {
+		return
+	}
+	env := make([]string, 0, len(os.Environ())+1)
+	for _, kv := range os.Environ() {
+		if !strings.HasPrefix(kv, "GORACE=") {
+			env = append(env, kv)
+		}
+	}
+	env = append(env, "GORACE="+strings.TrimSpace(os.Getenv("GORACE")+" halt_on_error=1 exitcode=66 atexit_sleep_ms=0"))
+	_ = syscall.Exec(exe, os.Args, env) // returns only on failure: carry on with the settings we have
+}
+
 func main() {
+	ensureHaltOnRace()
 	seed := flag.Int64("seed", 1, "run seed")
 	rounds := flag.Int("rounds", 300, "rounds per sub-scenario (sections 1, 2); section 3 performs rounds × flips-per-round schedule flips")
 	gor := flag.Int("goroutines", 16, "maximum goroutines per round (sections 1, 2: 2..min(g,16)); section 3 uses g-2 executors + flipper + epoch notifier")
@@ -188,6 +215,5 @@ func main() {
 	if len(r.out.Findings) > 0 {
 		os.Exit(1)
 	}
-	// a race reported without halt_on_error turns this into exit code 66 (race runtime, at exit)
 	os.Exit(0)
 }
